@@ -73,6 +73,19 @@ do_pair(const struct rc_day *p, int A, int B, int replay)
 		}
 	}
 	ex_outcome(ex_hash_mix(ex_hash(tw, strlen(tw)), (uint64_t)(A * 16 + B)));
+	if (A == H_YMCW0 && ta[0] != '\0' && strcmp(ta, tb) != 0) {
+		/* the way back spells the Sunday 07: the same date in the calendar's other spelling (Sunday is 0 or 7) */
+		struct dt_dt_s v7;
+		char t7[64] = "";
+		if (held_value(H_YMCW, p, &v7) > 0) {
+			txt(t7, sizeof(t7), v7);
+		}
+		if (t7[0] != '\0' && !strcmp(t7, tb)) {
+			EX_CTR(c_spell, "accepted:a ymcw Sunday given as 00 comes back spelt 07");
+			++*c_spell;
+			return 0;
+		}
+	}
 	if (strcmp(ta, tb) != 0 || ta[0] == '\0') {
 		snprintf(key, sizeof(key), "roundtrip A=%s via=%s", held_name[A], held_name[B]);
 		snprintf(cas, sizeof(cas), "rt %d %d %d", A, B, p->rd);
@@ -246,6 +259,10 @@ main(int argc, char *argv[])
 			}
 			for (int A = 0; A < NHELD; A++) {
 				for (int B = 0; B < NHELD; B++) {
+					if (B == H_YMCW0) {
+						/* as a target it is ymcw again */
+						continue;
+					}
 					if (A != B) {
 						do_pair(p, A, B, 0);
 					}
